@@ -467,14 +467,18 @@ func runC16(seed int64, n int, tier string, outDir string) (*Report, error) {
 	for i, s := range ids {
 		idParts[i] = hx([]byte(s))
 	}
-	hdrT := "From AP.Model Require Import Prelude Vocab Pred IriEq Recip Flatten.\nFrom AP.Proofs Require Import FlattenIdemP.\n" +
+	// (b42) the pool-free domain of the C16_*_domain theorems (fields_dom: flat_ok + every compared id in C14's iri_dom)
+	// is evaluated per case as well: a valid-stream input must lie inside, and inside it the real code's second
+	// application must change nothing (C16_idempotent_domain on the observed answers)
+	hdrT := "From AP.Model Require Import Prelude Vocab Pred IriEq IriNf Recip Flatten.\nFrom AP.Proofs Require Import FlattenIdemP FlattenDomP.\n" +
 		"Definition pool_ids : list bytes := [" + strings.Join(idParts, "; ") + "].\n" +
 		"Definition ok (c : fkind * item * bool * outcome item * outcome item) : bool := let '(fk, x, valid, once, twice) := c in\n" +
 		"  match x with IObj true k fs =>\n" +
 		"    let g := fields_goodb pool_ids fk fs in\n" +
-		"    implb valid g && outcome_eqb item_eqb (omap (IObj true k) (flatten_fields_m fk fs)) once &&\n" +
+		"    let d := fields_dom fk fs in\n" +
+		"    implb valid g && implb valid d && outcome_eqb item_eqb (omap (IObj true k) (flatten_fields_m fk fs)) once &&\n" +
 		"    outcome_eqb item_eqb (omap (IObj true k) (obind (flatten_fields_m fk fs) (flatten_fields_m fk))) twice &&\n" +
-		"    implb g (outcome_eqb item_eqb once twice)\n" +
+		"    implb g (outcome_eqb item_eqb once twice) && implb d (outcome_eqb item_eqb once twice)\n" +
 		"  | _ => false end.\n"
 	cwT := NewCaseWriter(outDir, "Cases_C16_twice", hdrT, "fkind * item * bool * outcome item * outcome item")
 	for i := 0; cw.total < n*2/3; i++ {
@@ -578,11 +582,12 @@ func runC16(seed int64, n int, tier string, outDir string) (*Report, error) {
 
 	// (5b) Coq: Flatten twice on the real code vs the model twice; inside flat_ok (and ids in the pool) the second
 	// application must change nothing; the four witnesses of Props/C16.v (C16_twice_differs_*) lie outside and differ
-	hdr3t := "From AP.Model Require Import Prelude Vocab Pred IriEq Recip Flatten.\nFrom AP.Proofs Require Import FlattenIdemP.\n" +
+	hdr3t := "From AP.Model Require Import Prelude Vocab Pred IriEq IriNf Recip Flatten.\nFrom AP.Proofs Require Import FlattenIdemP.\n" +
 		"Definition pool_ids : list bytes := [" + strings.Join(idParts, "; ") + "].\n" +
 		"Definition ok (c : item * bool * outcome item * outcome item) : bool := let '(x, differs, once, twice) := c in\n" +
 		"  outcome_eqb item_eqb (flatten_m x) once && outcome_eqb item_eqb (obind (flatten_m x) flatten_m) twice &&\n" +
 		"  implb (flat_ok x && forallb (inb pool_ids) (flat_keys x)) (outcome_eqb item_eqb once twice) &&\n" +
+		"  implb (flat_ok x && forallb iri_dom (flat_keys x)) (outcome_eqb item_eqb once twice) &&\n" +
 		"  implb differs (negb (flat_ok x) && negb (outcome_eqb item_eqb once twice)).\n"
 	cw3t := NewCaseWriter(outDir, "Cases_C16_flatten_twice", hdr3t, "item * bool * outcome item * outcome item")
 	flattenTwice := func(it ap.Item, differs bool, label string) {
